@@ -44,9 +44,15 @@ PROFILE = Profile(name="pure", max_periods=3, p_filter=0.5, max_points=8_000, ma
                   max_cont_choice_nodes=4, p_stoch=0.4, every_function_has_params=True)
 
 
+PROFILE_2C = Profile(name="pure_2cont", max_periods=3, p_filter=0.5, max_points=8_000, max_cont_state_nodes=4,
+                     max_cont_choice_nodes=3, p_stoch=0.3, min_cont_states=2, max_cont_states=2, max_disc_states=2,
+                     max_cont_choices=1, max_disc_choices=2)
+
+
 @st.composite
 def cases(draw):
-    spec = draw(model_specs(PROFILE))
+    two_cont = draw(st.integers(0, 2)) == 0
+    spec = draw(model_specs(PROFILE_2C if two_cont else PROFILE))
     nvar = draw(st.integers(2, 3))
     variants = [{"beta_f": 1.0, "par_f": 1.0, "leaf": draw(st.sampled_from(["float", "numpy", "jax"]))}]
     for i in range(1, nvar):
@@ -58,8 +64,9 @@ def cases(draw):
         ops.append({"op": kind, "p": draw(st.integers(0, nvar - 1)), "a": draw(st.integers(0, 1)), "s": draw(st.integers(0, 1))})
     return {"spec": spec.to_json(), "variants": variants, "agents": [draw(raw_agents(1, 4)), draw(raw_agents(2, 5))],
             "seeds": [draw(st.integers(0, 2**31 - 1)), draw(st.integers(0, 2**31 - 1))], "ops": ops,
-            "subprocess": draw(st.integers(0, 3)) == 0,
-            "hashseeds": [draw(st.sampled_from([1, 2, 12345, 4294967295])), draw(st.integers(3, 10**6))]}
+            "subprocess": two_cont or draw(st.integers(0, 3)) == 0,
+            "hashseeds": [draw(st.sampled_from([1, 2, 12345, 4294967295])), draw(st.integers(3, 10**6)),
+                          draw(st.integers(3, 10**6))]}
 
 
 def strategy(tier):
